@@ -438,6 +438,15 @@ def denormalizeFlow (ac : Bool) (n : Fin d → Nat) (sideLength : α) (v : Vec d
     let w : α := if 1 < n i then v i * size_ else ((0 : Nat) : α)
     if sideLength ≠ ((1 : Nat) : α) then w / sideLength else w
 
+/-- src: flow.py:normalize_flow @698-706 on one vector (channels last): `size_ = size − 1` for align_corners,
+    `data * side_length` unless it is 1, then `where(size > 1, data / size_, 0)`. -/
+def normalizeFlow (ac : Bool) (n : Fin d → Nat) (sideLength : α) (v : Vec d α) : Vec d α :=
+  fun i =>
+    let size : α := ((n i : Nat) : α)
+    let size_ : α := if ac then size - ((1 : Nat) : α) else size
+    let w : α := if sideLength ≠ ((1 : Nat) : α) then v i * sideLength else v i
+    if 1 < n i then w / size_ else ((0 : Nat) : α)
+
 inductive Units | cube | voxel | world
   deriving DecidableEq, Repr
 
